@@ -181,16 +181,16 @@ func (eng *Engine) constGlobal(u *Unit, g *ssa.Global) (Term, bool) {
 	first := !u.s.declared["c:"+name]
 	u.s.declConst(name, srt)
 	if first {
-		u.s.assume(u.ty.rangeFact(name, t, ""))
+		u.s.assumeGlobal(u.ty.rangeFact(name, t, ""))
 		if types.Identical(t, types.Universe.Lookup("error").Type()) {
 			// sentinel errors: non-nil, pairwise distinct leaf errors
-			u.s.assume(not(eq(sx("ifc_tag", name), "0")))
-			u.s.assume(fmt.Sprintf("(forall ((t Ifc)) (! (= (errIs %s t) (= t %s)) :pattern ((errIs %s t))))", name, name, name))
+			u.s.assumeGlobal(not(eq(sx("ifc_tag", name), "0")))
+			u.s.assumeGlobal(fmt.Sprintf("(forall ((t Ifc)) (! (= (errIs %s t) (= t %s)) :pattern ((errIs %s t))))", name, name, name))
 			for _, other := range u.sentinels {
 				if !u.eng.sameSentinel(other.g, g) {
-					u.s.assume(sx("distinct", name, other.name))
+					u.s.assumeGlobal(sx("distinct", name, other.name))
 				} else {
-					u.s.assume(eq(name, other.name))
+					u.s.assumeGlobal(eq(name, other.name))
 				}
 			}
 			u.sentinels = append(u.sentinels, sentinel{g, name})
@@ -490,4 +490,32 @@ func (eng *Engine) deadInstrs(fn *ssa.Function) map[ssa.Instruction]bool {
 	}
 	eng.deadCache[fn] = dead
 	return dead
+}
+
+// pkgReaches: does package from import (transitively) package to?
+func (eng *Engine) pkgReaches(from, to string) bool {
+	if from == to {
+		return true
+	}
+	seen := map[string]bool{}
+	var walk func(p *types.Package) bool
+	walk = func(p *types.Package) bool {
+		if p.Path() == to {
+			return true
+		}
+		if seen[p.Path()] {
+			return false
+		}
+		seen[p.Path()] = true
+		for _, q := range p.Imports() {
+			if strings.HasPrefix(q.Path(), modulePath) && walk(q) {
+				return true
+			}
+		}
+		return false
+	}
+	if p, ok := eng.ssaPkgs[from]; ok {
+		return walk(p.Pkg)
+	}
+	return false
 }
